@@ -280,6 +280,28 @@ def run(ctx: Ctx) -> Result:
             viol(name + f' with {cnt} operands, item limit {lim} bytes: every operand and the exact result fit the limit',
                  {'operands_top_first': [str(x_)[:60] for x_ in ops_], 'limit': lim, 'script': script.hex()[:400], 'cfg': cfgn.line()},
                  'stack top ' + ref_i2b(want).hex()[:80], f['status'] + ' ' + str(top)[:80])
+    # floats that are integers, in every binade up to the top one (|x| < 2^128): FLOAT_TO_INT gives the exact integer, INT_TO_FLOAT of it
+    # gives the same 32 bits back
+    import struct as _st
+    for e_ in list(range(0, 128, 9)) + [23, 24, 52, 53, 63, 64, 125, 126, 127]:
+        for man in (0, 1, 0x400000, 0x7fffff, irng.getrandbits(23)):
+            for sgn in (0, 1):
+                bits = (sgn << 31) | ((e_ + 127) << 23) | man
+                fb = bits.to_bytes(4, 'big'); x = _st.unpack('!f', fb)[0]
+                if x != int(x): continue
+                z = int(x)
+                for what_, script, want in (('FLOAT_TO_INT', G.push(fb) + bytes([N['FLOAT_TO_INT']]), ref_i2b(z)),
+                                            ('INT_TO_FLOAT', G.push(ref_i2b(z)) + bytes([N['INT_TO_FLOAT']]), fb if z != 0 or sgn == 0 else None),
+                                            ('FLOAT_TO_INT INT_TO_FLOAT', G.push(fb) + bytes([N['FLOAT_TO_INT'], N['INT_TO_FLOAT']]), fb if z != 0 or sgn == 0 else None)):
+                    if want is None: continue
+                    o = vmrun.run_impl(cfg, {}, script)
+                    run_lines.append(vmrun.case_line('RUN', cfg, {}, [script])); run_outs.append(o)
+                    res.note_case(('int-float', what_, bits)); nops += 1
+                    f = vmrun.fields(o)
+                    top = f.get('stack', '-').split(',')[0] if f['status'] == 'OK' else None
+                    if top is None or top in ('-', 'e') or bytes.fromhex(top) != want:
+                        viol(what_ + f' on the integer-valued float32 {fb.hex()} (= {"-" if sgn else ""}2^{e_} * (1 + {man}/2^23))', {'script': script.hex(), 'value': str(z)[:60]},
+                             'stack top ' + want.hex(), f['status'] + ' ' + str(top)[:80])
     # instructions that *produce* integers from lengths / counts use the same signed encoding (SIZE, DEPTH)
     for n in sorted({0, 1, 2, 126, 127, 128, 129, 200, 254, 255, 256, 257, 511, 512, 1000, 1023, 1024} | {irng.randrange(0, 1025) for _ in range(ctx.n(20, 200))}):
         script = G.push(bytes([7]) * n) + bytes([N['SIZE']]) if n else bytes([N['PUSH1'], 0, N['SIZE']])
